@@ -315,6 +315,12 @@ func replayCase(sub string, raw json.RawMessage) string {
 			return m
 		}
 		return checkCustom(c).msg
+	case "option-reuse":
+		var c reuseCase
+		if m := un(&c); m != "" {
+			return m
+		}
+		return checkReuse(c).msg
 	case "history":
 		var c historyCase
 		if m := un(&c); m != "" {
@@ -353,6 +359,7 @@ func TestC19(t *testing.T) {
 	runInput(t)
 	runCustom(t)
 	runHistory(t)
+	runReuse(t)
 	runAmbient(t)
 }
 
@@ -360,7 +367,7 @@ func jsonMarshal(v any) ([]byte, error) { return json.Marshal(v) }
 
 // sample spreads the shards' sample reservoirs over the sub-checks: shard i
 // samples only the sub-check i mod 6.
-var sampleSubs = []string{"custom", "ambient", "input", "vars", "deny", "environ", "history"}
+var sampleSubs = []string{"custom", "ambient", "input", "vars", "deny", "environ", "history", "option-reuse"}
 
 func sample(sub string, v any) {
 	if sampleSubs[rec.Shard%len(sampleSubs)] == sub {
